@@ -51,6 +51,21 @@ CHECKS = {
         "note": "Trusted: Lean kernel; net.ParseIP/ParseCIDR/Contains (model works on parsed values rendered by the generator); net/http.ServeMux routing; route table mirrored by hand and exercised route by route.",
         "technique": "Lean 4 proof (decision logic stated outright) + differential correspondence + trace oracle",
     },
+    "C14": {
+        "text": "Lean theorems over the transducer model of limitedResponseWriter and the request gate: at most max_response_body body bytes are ever passed down (resp_bounded, every op sequence), 413 when the excess shows before anything was sent, responses within the limit go through as exactly the same operations for every status >= 200 incl. bodiless ones, every write partition and flush placement (explicit status) or indistinguishably (implicit 200), declared lengths above max_request_body are answered 413 before anything inner runs and the backend can read at most the limit. Tied to the code by pairs of real HTTP exchanges with/without the plugin on a real net/http server.",
+        "note": "Trusted: Lean kernel; the Base model of net/http's server side (validated against the real server on every run); transparency is for handlers that call WriteHeader once and not after writing.",
+        "technique": "Lean 4 proof (transducer invariants, simulation by list equality) + differential correspondence on real connections",
+    },
+    "C15": {
+        "text": "Lean theorems over the transducer model of gzipResponseWriter: for every operation sequence and configuration the bytes passed down (gzip members counted as their decoded content) are exactly the handler's body bytes in order, below and above the buffering cap (payload_preserved); exactly one status line, the backend's (status_preserved); a gzip member is emitted only if non-empty, not already encoded, >= min_size (also by declared length), content type matches, within the cap, and then Content-Encoding is set and Content-Length dropped before the status line (compress_only_if); otherwise no header is touched (identity_otherwise); clients not listing gzip bypass the plugin. Tied to the code by real exchanges decoded by the client according to the headers it received.",
+        "note": "Trusted: Lean kernel; compress/gzip round-trip (the client really decodes); Base model of net/http validated on every run; Accept-Encoding tokenisation mirrored by hand and exercised with 11 spellings.",
+        "technique": "Lean 4 proof (payload invariant over all op sequences) + differential correspondence on real connections",
+    },
+    "C17": {
+        "text": "Lean theorems over the chain model: for every chain (any length) whose plugins do not reject, entry order is the configured order, the backend runs once, exit order is reversed (chain_order, chain_order_general through transforming plugins); a rejecting custom-auth / size_limit stops the request before every later plugin and the backend (reject_stops); BuildChain is all-or-nothing: a chain exactly when every entry is a known plugin with a valid configuration, else no handler (startup_fail_closed, unknown_plugin_fails). Tied to the code by real exchanges through chains with tracing probes and by BuildChain on valid/invalid option payloads in YAML typings.",
+        "note": "Trusted: Lean kernel; the factories' option parsing is mirrored by hand (validated by the differential); buildHandler/main propagate the error (glue read, not modelled).",
+        "technique": "Lean 4 proof (induction on the chain) + differential correspondence",
+    },
 }
 
 NOT_APPLICABLE = {}
